@@ -109,7 +109,9 @@ func c10Append(r *Report, p *Prog, arch string) {
 			continue
 		}
 		env := NewLinEnv(p, fn)
-		env.lenSum = func(c2 *ssa.Function, call2 *ssa.Call, en *LinEnv) ([]*Lin, bool) { return retLenSummary(p, c2, 0, call2, en, 0) }
+		env.lenSum = func(c2 *ssa.Function, call2 *ssa.Call, en *LinEnv) ([]*Lin, bool) {
+			return retLenSummary(p, c2, 0, call2, en, 0)
+		}
 		for _, b := range fn.Blocks {
 			ret, ok := b.Instrs[len(b.Instrs)-1].(*ssa.Return)
 			if !ok || b == fn.Recover || !sp.accept(ret) {
